@@ -1,5 +1,6 @@
 use crate::fw::{Ctx, Outcome};
 
+pub mod c02;
 pub mod c02_e2e;
 pub mod c04;
 pub mod c06;
@@ -8,8 +9,10 @@ pub mod c09;
 pub mod c10;
 pub mod c11;
 pub mod c13;
+pub mod c15;
 pub mod c16;
 pub mod c17;
+pub mod c18;
 pub mod c19;
 pub mod e2e;
 pub mod retry_e2e;
@@ -17,7 +20,10 @@ pub mod smoke;
 
 pub fn dispatch(ctx: &Ctx) -> Option<Outcome> {
     Some(match ctx.prop.as_str() {
-        "C02" => c02_e2e::run_b(ctx),
+        "C02" => match ctx.part.as_deref() {
+            Some("b") => c02_e2e::run_b(ctx),
+            _ => c02::run(ctx),
+        },
         "C04" => c04::run(ctx),
         "C06" => c06::run(ctx),
         "C07" => c07::run(ctx),
@@ -25,8 +31,10 @@ pub fn dispatch(ctx: &Ctx) -> Option<Outcome> {
         "C10" => c10::run(ctx),
         "C11" => c11::run(ctx),
         "C13" => c13::run(ctx),
+        "C15" => c15::run(ctx),
         "C16" => c16::run(ctx),
         "C17" => c17::run(ctx),
+        "C18" => c18::run(ctx),
         "C19" => c19::run(ctx),
         "smoke" => smoke::run(ctx),
         "wire-selftest" => {
